@@ -1111,6 +1111,9 @@ htp_status_t htp_connp_RES_LINE(htp_connp_t *connp) {
                     return HTP_OK;
                 }
                 connp->out_tx->response_content_encoding_processing = HTP_COMPRESSION_NONE;
+#ifdef LIBHTP_VERIF
+                htp_verif_site(HTP_VERIF_SITE_RES_LINE_AS_BODY, connp, (long) len, 0);
+#endif
 
                 connp->out_current_consume_offset = connp->out_current_read_offset;
                 htp_status_t rc = htp_tx_res_process_body_data_ex(connp->out_tx, data, len + chomp_result);
